@@ -173,15 +173,16 @@ class BuildError(Exception):
     pass
 
 
-def harness(sub, lines, extra=(), race=False, timeout=1800, shards=1, env=None):
+def harness(sub, lines, extra=(), race=False, timeout=1800, shards=1, env=None, force=False):
     """Run a harness sub-command over JSON lines; returns the list of JSON replies.
     With shards>1 the input is split round-robin over parallel processes."""
     exe = build_harness(race=race)
     reqs = [json.dumps(x) if not isinstance(x, str) else x for x in lines]
-    if shards <= 1 or len(reqs) < 2 * shards:
+    shards = min(shards, max(1, len(reqs)))
+    if shards <= 1 or (len(reqs) < 2 * shards and not force):
         return _harness1(exe, sub, extra, reqs, timeout, env)
     chunks = [reqs[i::shards] for i in range(shards)]
-    with cf.ThreadPoolExecutor(max_workers=shards) as ex:
+    with cf.ThreadPoolExecutor(max_workers=min(shards, 2 * NCPU)) as ex:
         outs = list(ex.map(lambda c: _harness1(exe, sub, extra, c, timeout, env), chunks))
     res = [None] * len(reqs)
     for i, o in enumerate(outs):
